@@ -25,23 +25,51 @@ import sys
 
 from .config_service import ConfigService  # noqa: F401
 
-LOGGING_CONF = os.getenv('DEEP_LOGGING_CONF', None)
-'''The path to the logging config file to use'''
+# These are functions: the environment is read when the setting is used, not when this module is imported. An
+# application that fills os.environ after 'import deep' (load_dotenv, a settings module) and then calls deep.start()
+# is given what it has set, as it is for the settings below and for keys that are not listed here.
 
-POLL_TIMER = os.getenv('DEEP_POLL_TIMER', 10)
-"""The time in seconds to wait between each poll (default: 10)"""
 
-SERVICE_URL = os.getenv('DEEP_SERVICE_URL', 'deep:43315')
-"""The URL for the service to connect to (default: deep:43315)"""
+# noinspection PyPep8Naming
+def LOGGING_CONF():
+    """Get the path to the logging config file to use."""
+    return os.getenv('DEEP_LOGGING_CONF', None)
 
-SERVICE_SECURE = os.getenv('DEEP_SERVICE_SECURE', 'True')
-"""Is the service secured, should we connect with TLS or not (default: True)"""
 
-SERVICE_AUTH_PROVIDER = os.getenv('DEEP_SERVICE_AUTH_PROVIDER', None)
-"""The Auth provider to use for the service (default: None)"""
+# noinspection PyPep8Naming
+def POLL_TIMER():
+    """Get the time in seconds to wait between each poll (default: 10)."""
+    return os.getenv('DEEP_POLL_TIMER', 10)
 
-APP_ROOT = ""
-"""App root sets the prefix that can be removed to generate shorter file names. This value is calculated."""
+
+# noinspection PyPep8Naming
+def SERVICE_URL():
+    """Get the URL for the service to connect to (default: deep:43315)."""
+    return os.getenv('DEEP_SERVICE_URL', 'deep:43315')
+
+
+# noinspection PyPep8Naming
+def SERVICE_SECURE():
+    """Is the service secured, should we connect with TLS or not (default: True)."""
+    return os.getenv('DEEP_SERVICE_SECURE', 'True')
+
+
+# noinspection PyPep8Naming
+def SERVICE_AUTH_PROVIDER():
+    """Get the Auth provider to use for the service (default: None)."""
+    return os.getenv('DEEP_SERVICE_AUTH_PROVIDER', None)
+
+
+# noinspection PyPep8Naming
+def APP_ROOT():
+    """
+    Get the app root.
+
+    App root sets the prefix that can be removed to generate shorter file names. This value is calculated by
+    deep.start(), unless it is given (default: '').
+    """
+    return os.getenv('DEEP_APP_ROOT', '')
+
 
 PLUGINS = []
 """User definable plugins."""
